@@ -184,6 +184,7 @@ class State:
         s.depth = self.depth
         s.bound = list(self.bound)
         s.dec = list(self.dec)
+        s.locks_held = getattr(self, 'locks_held', 0)
         return s
 
     def assume(self, c, decision=False):
